@@ -243,7 +243,7 @@ func init() {
 		// ---- parseSpan: the value returned for an omitted second number
 		found := false
 		ast.Inspect(parseSpan, func(n ast.Node) bool {
-			if s, ok := n.(*ast.IfStmt); ok && x.Src(s.Cond) == "len(lohi) == 1" && len(s.Body.List) == 1 {
+			if s, ok := n.(*ast.IfStmt); ok && (x.Src(s.Cond) == "len(lohi) == 1" || cutMissed(x, parseSpan, s.Cond)) && s.Init == nil && len(s.Body.List) == 1 {
 				if r, ok := s.Body.List[0].(*ast.ReturnStmt); ok && len(r.Results) == 3 && x.Src(r.Results[0]) == "lo" && x.Src(r.Results[2]) == "nil" {
 					found = true
 					x.emit("/-- `parseSpan`: `if len(lohi) == 1 { return lo, %s, nil }` — the second number when it is omitted -/\ndef spanOmitted (lo : Nat) : Nat := %s\n",
@@ -476,4 +476,23 @@ var mdiffPinned = []string{
 	`def rdNrmIns : String := "> "`,
 	`def rdNrmSep : String := "---"`,
 	"def addContextBoundsGap : Bool := true",
+}
+
+// cutMissed: cond is `!found` for the third result of `…, …, found := strings.Cut(rest, ",")` in fn — the same
+// test as `len(lohi) == 1` after `lohi := strings.SplitN(rest, ",", 2)`: no comma in rest.
+func cutMissed(x *X, fn *ast.FuncDecl, cond ast.Expr) bool {
+	not, ok := cond.(*ast.UnaryExpr)
+	if !ok || not.Op != token.NOT {
+		return false
+	}
+	v, ok := not.X.(*ast.Ident)
+	if !ok || v.Obj == nil {
+		return false
+	}
+	as, ok := v.Obj.Decl.(*ast.AssignStmt)
+	if !ok || as.Tok != token.DEFINE || len(as.Lhs) != 3 || len(as.Rhs) != 1 || x.Src(as.Rhs[0]) != `strings.Cut(rest, ",")` {
+		return false
+	}
+	id, ok := as.Lhs[2].(*ast.Ident)
+	return ok && id.Obj == v.Obj && !assignsObjExcept(fn.Body, v.Obj, as)
 }
